@@ -314,6 +314,41 @@ class C16:
                 break
         return Outcome(classes=["privacy"], nontrivial=True, failure=fail, sample={"on_a": case["on_a"]})
 
+    def check_private_path(self, case, get_ex):
+        """a search directory added to one section instance (from a callback running inside it) is that instance's own"""
+        from c02 import fixture_dir
+        import os
+        base = os.path.join(fixture_dir(), "c16p")
+        schema = [o_sec("tm", [o_int("x", 7), o_func("adddir", "adddir"), o_func("include", "include")], F_MULTI | F_TITLE),
+                  o_func("include", "include"), o_int("top", 0)]
+        sib = case["sibling"]
+        res = []
+        for with_a in (True, False):
+            s = Script()
+            emit_schema(s, 0, schema)
+            s.add("mkdir", hx(base))
+            s.add("mkdir", hx(os.path.join(base, "priv")))
+            s.add("mkfile", hx(os.path.join(base, "priv", "only.conf")), hx("x = 42\n"))
+            s.add("mkfile", hx(os.path.join(base, "priv", "top.conf")), hx("top = 1\n"))
+            s.add("cwd", hx(base))
+            s.add("init", 1, 0, 0)
+            first = "tm a { adddir(\"%s\") x = 1 }\n" % os.path.join(base, "priv") if with_a else "tm a { x = 1 }\n"
+            ip = s.add("parse_buf", 1, hx(first + sib))
+            idd = s.add("dump", 1)
+            ip2 = s.add("parse_file", 1, hx("top.conf"))
+            s.add("free", 1)
+            r = get_ex("asan").run(s)
+            res.append((r, by_index(r.trace), ip, idd, ip2))
+        (r1, t1, ip, idd, ip2), (r2, t2, jp, jdd, jp2) = res
+        if not (r1.clean and r2.clean):
+            d = (r1 if not r1.clean else r2)
+            return Outcome(failure=Failure("private-path/die/%s" % d.death(), d.stderr.decode("latin-1")[:1500]), classes=["private-path"], nontrivial=True)
+        fail = None
+        if t1[ip]["rc"] != t2[jp]["rc"] or t1[ip2]["rc"] != t2[jp2]["rc"]:
+            fail = Failure("private-path/sibling-or-parent-sees-it", "with a search directory added inside instance a: text rc %d, later cfg_parse(\"top.conf\") rc %d; "
+                           "without: %d / %d (sibling text %r)" % (t1[ip]["rc"], t1[ip2]["rc"], t2[jp]["rc"], t2[jp2]["rc"], sib))
+        return Outcome(classes=["private-path"], nontrivial=True, failure=fail, sample={"sibling": sib})
+
     def privacy_cases(self):
         H = hx
         return [{"kind": "privacy", "on_a": ops} for ops in (
@@ -326,6 +361,8 @@ class C16:
     def check_case(self, case, get_ex):
         if case.get("kind") == "privacy":
             return self.check_privacy(case, get_ex)
+        if case.get("kind") == "private-path":
+            return self.check_private_path(case, get_ex)
         if case.get("kind") == "interleave":
             return self.check_interleave(case, get_ex)
         return self.check_poison(case, get_ex)
@@ -377,6 +414,9 @@ class C16:
         r.run_cases([{"schema": "c16", "flags": f, "text": POISON_TEXT} for f in (0, F_COMMENTS)] +
                     [{"schema": k, "flags": 0, "text": ""} for k in ("basic", "sections", "funcs", "ptrs", "keyval", "deprecated", "callbacks", "mixed")], chunksize=1)
         r.run_cases(self.privacy_cases(), chunksize=1)
+        r.run_cases([{"kind": "private-path", "sibling": sib} for sib in (
+            "tm b { include(\"only.conf\") }\n", "tm b { }\ninclude(\"top.conf\")\n", "tm a { include(\"only.conf\") }\n",
+            "tm b { x = 2 }\ntm c { include(\"only.conf\") }\n")], chunksize=1)
         r.run_cases(self.interleave_cases(r.tier), chunksize=10)
         r.run_hypothesis(20000 if r.tier == "quick" else 500000)
 
